@@ -218,6 +218,13 @@ pub fn expectation(p: &Probe) -> Expect {
             if *len == 0 {
                 // an empty fill carries no sample whose width could disagree
                 Expect::NoPanic
+            } else if *ch == 0 {
+                // "channel count 0": Context::new has no Result to refuse it with, so the fill has to
+                Expect::MustErr
+            } else if ![8usize, 12, 16, 20, 24].contains(bps) || *ch > 8 {
+                // a context of an unsupported width / more than 8 channels (Context::new returns no Result):
+                // unclassified, the fill must not panic
+                Expect::NoPanic
             } else if *bytes_per_sample != 0 && *bytes_per_sample != (*bps + 7) / 8 {
                 Expect::MustErr
             } else if len % ch != 0 {
@@ -721,9 +728,9 @@ pub fn probes() -> Vec<Probe> {
             }
         }
     }
-    for bps in [8usize, 12, 16, 20, 24] {
-        for ch in [1usize, 2, 3] {
-            for len in [0usize, 1, 2, 3, 6, 64 * ch, 64 * ch + 1] {
+    for bps in [8usize, 12, 16, 20, 24, 0, 1, 7, 9, 25, 32] {
+        for ch in [1usize, 2, 3, 0, 8, 9, 256, usize::MAX] {
+            for len in [0usize, 1, 2, 3, 6, 64usize.saturating_mul(ch).min(4096), 64usize.saturating_mul(ch).min(4096) + 1] {
                 for bytes_per_sample in 0..=5usize {
                     v.push(Probe::ContextFill { bps, ch, len, bytes_per_sample });
                 }
@@ -763,5 +770,5 @@ pub fn run(args: &Args, rep: &Arc<Report>) {
         rep.sample(json!({"api_probe": p}));
     }
     rep.extra("probes", json!(n));
-    rep.set_rule("entry points: encode_with_fixed_block_size (MemSource and a custom source, single- and multi-thread), encode_fixed_size_frame, Stream::new, StreamInfo::new, FrameBuf::with_size, FrameBuf::fill_interleaved / fill_le_bytes, Context::new, Context::fill_*; per argument the grid {0, min-1, min, max, max+1, 2^8+k, 2^16+k, 2^31, 2^32+k, usize::MAX} (k = 0, 1, a valid value) with the other arguments valid; out-of-width samples at each block position and as integers / packed bytes; byte fills with every bytes-per-sample 0..=5 against every declared width; fills of every length 0..=capacity+channels+1 and 2x / 10x capacity; oracle: the statement's invalid classes give Err (not Ok, not panic, not hang), plainly valid arguments give Ok, block sizes reaching encode_fixed_size_frame through FrameBuf::resize (0, 1, 16..65600; with and without an earlier fill); every width other than 8/12/16/20/24 counts as unsupported; unclassified ones (rate 0, lengths not a multiple of the channel count, channel-count disagreement between StreamInfo and FrameBuf) must not panic; non-trivial = an invalid argument answered with Err");
+    rep.set_rule("entry points: encode_with_fixed_block_size (MemSource and a custom source, single- and multi-thread), encode_fixed_size_frame, Stream::new, StreamInfo::new, FrameBuf::with_size, FrameBuf::fill_interleaved / fill_le_bytes, Context::new, Context::fill_* (contexts of 0 / 9 / 256 / usize::MAX channels and of widths no format has included: a fill into a context of 0 channels must be refused, the others must not panic); per argument the grid {0, min-1, min, max, max+1, 2^8+k, 2^16+k, 2^31, 2^32+k, usize::MAX} (k = 0, 1, a valid value) with the other arguments valid; out-of-width samples at each block position and as integers / packed bytes; byte fills with every bytes-per-sample 0..=5 against every declared width; fills of every length 0..=capacity+channels+1 and 2x / 10x capacity; oracle: the statement's invalid classes give Err (not Ok, not panic, not hang), plainly valid arguments give Ok, block sizes reaching encode_fixed_size_frame through FrameBuf::resize (0, 1, 16..65600; with and without an earlier fill); every width other than 8/12/16/20/24 counts as unsupported; unclassified ones (rate 0, lengths not a multiple of the channel count, channel-count disagreement between StreamInfo and FrameBuf) must not panic; non-trivial = an invalid argument answered with Err");
 }
